@@ -112,6 +112,11 @@ def call_closure(I, f, *args):
 
 # ------------------------------------------------------------------ Option / Result
 
+@reg('anyhow::Ok')
+def _anyhow_ok(I, a, ci, dt):
+    return Ok(a[0])
+
+
 @reg('Option::unwrap', 'Result::unwrap')
 def _unwrap(I, a, ci, dt):
     v = a[0]
